@@ -14,11 +14,15 @@ import (
 	"strconv"
 	"strings"
 
+	"0chain.net/chaincore/block"
 	"0chain.net/chaincore/node"
 	"0chain.net/chaincore/round"
 	"0chain.net/chaincore/threshold/bls"
+	"0chain.net/chaincore/transaction"
 	"0chain.net/core/encryption"
+	"0chain.net/smartcontract/minersc"
 	"verifharness/cryptoh"
+	"verifharness/sc"
 	"verifharness/vh"
 )
 
@@ -42,6 +46,11 @@ type scen struct {
 	Timeout   int    `json:"timeout"`
 	PrevSeed  int64  `json:"prev_seed"`
 	Views     []view `json:"views"`
+	// Lens, when set, makes this a "contribute" scenario: miner j publishes a public polynomial with
+	// Lens[j] coefficients through the real minersc contributeMpk (-1 = a sender outside the DKG set;
+	// an index listed twice in Again contributes a second time); the accepted ones form the DKG.
+	Lens  []int `json:"lens,omitempty"`
+	Again []int `json:"again,omitempty"`
 }
 
 type outcome struct {
@@ -140,6 +149,9 @@ func run(s scen) (res *outcome) {
 }
 
 func run1(s scen) *outcome {
+	if len(s.Lens) > 0 {
+		return runContribute(s)
+	}
 	o := &outcome{descs: map[string]string{}, hist: map[string]int{}}
 	w := world(s.T, s.N, s.WorldSeed)
 	// hypothesis of the model
@@ -333,11 +345,202 @@ func run1(s scen) *outcome {
 				adm = append(adm, zx(partyHex(key)))
 			}
 			sort.Strings(adm)
-			o.coq = append(o.coq, fmt.Sprintf("(Build_vzc_case (%s) (%s) (%s) (%s) (%s) (%s) (%s) (%s) (%s) (%s) (%s) (%s))",
+			o.coq = append(o.coq, fmt.Sprintf("(Build_vzc_case (%s) (%s) (%s) (%s) (%s) (%s) (%s) (%s) (%s) (%s) (%s) (%s) ([]))",
 				vh.Nat(s.T), vh.Z(rn), vh.Z(int64(curTC)), vh.Z(s.PrevSeed), vh.Str(msg), vh.List(mem), zx(w.GSK.GetHexString()),
 				vh.List(coqEvs), vh.List(coqOks), vh.List(adm), hints, seedTerm))
 		}
 		v.Close()
+	}
+	return o
+}
+
+// ---------- contributeMpk -> DKG -> seed from every t-subset ----------
+
+func subsets(n, k, limit int, r *vh.Rand) [][]int {
+	var out [][]int
+	var rec func(start int, cur []int)
+	rec = func(start int, cur []int) {
+		if len(out) >= limit {
+			return
+		}
+		if len(cur) == k {
+			out = append(out, append([]int{}, cur...))
+			return
+		}
+		for i := start; i < n; i++ {
+			rec(i+1, append(cur, i))
+		}
+	}
+	rec(0, nil)
+	return out
+}
+
+func runContribute(s scen) *outcome {
+	o := &outcome{descs: map[string]string{}, hist: map[string]int{}}
+	T, N := s.T, s.N
+	type mn struct {
+		id     string
+		pid    bls.PartyID
+		dkg    *bls.DKG
+		member bool
+		ok     bool
+	}
+	var ms []*mn
+	cryptoh.WithRand(s.WorldSeed, func() {
+		for j, l := range s.Lens {
+			id := encryption.Hash(fmt.Sprintf("contribute %d miner %d", s.WorldSeed, j))
+			m := &mn{id: id, pid: bls.ComputeIDdkg(id), member: l >= 0}
+			if l < 0 {
+				l = T
+			}
+			if l < 1 {
+				l = 1
+			}
+			m.dkg = bls.MakeDKG(l, N, id)
+			ms = append(ms, m)
+		}
+	})
+	mpt := sc.NewMPT()
+	balances := sc.NewCtx(mpt, 100, nil)
+	if _, err := balances.InsertTrieNode(minersc.GlobalNodeKey, &minersc.GlobalNode{}); err != nil {
+		panic(err)
+	}
+	pn := &minersc.PhaseNode{Phase: minersc.Contribute, StartRound: 90, CurrentRound: 100}
+	if _, err := balances.InsertTrieNode(pn.GetKey(), pn); err != nil {
+		panic(err)
+	}
+	dmn := minersc.NewDKGMinerNodes()
+	dmn.T, dmn.K, dmn.N = T, T, N
+	for _, m := range ms {
+		if m.member {
+			sn := &minersc.SimpleNode{}
+			sn.ID = m.id
+			dmn.SimpleNodes[m.id] = sn
+		}
+	}
+	if _, err := balances.InsertTrieNode(minersc.DKGMinersKey, dmn); err != nil {
+		panic(err)
+	}
+	msc := minersc.NewMinerSmartContract()
+	var coqM []string
+	contribute := func(j int) {
+		m := ms[j]
+		mpk := &block.MPK{ID: m.id}
+		for _, pk := range m.dkg.GetMPKs() {
+			mpk.Mpk = append(mpk.Mpk, pk.GetHexString())
+		}
+		txn := &transaction.Transaction{ClientID: m.id}
+		_, err := msc.Execute(txn, "contributeMpk", mpk.Encode(), balances)
+		had := m.ok
+		acc := err == nil
+		o.hist[fmt.Sprintf("contribute-len%+d-%v", len(mpk.Mpk)-T, acc)]++
+		if acc && len(mpk.Mpk) != T {
+			o.fail("mpk-of-wrong-length-accepted", fmt.Sprintf("contributeMpk accepted a public polynomial with %d coefficients, T=%d", len(mpk.Mpk), T))
+		}
+		if acc && (!m.member || had) {
+			o.fail("mpk-of-wrong-sender-accepted", fmt.Sprintf("contributeMpk accepted miner %d (in the DKG set: %v, already contributed: %v)", j, m.member, had))
+		}
+		if !acc && m.member && !had && len(mpk.Mpk) == T {
+			o.fail("valid-mpk-rejected", fmt.Sprintf("contributeMpk rejected a first polynomial with T=%d coefficients of a DKG miner: %v", T, err))
+		}
+		if acc {
+			m.ok = true
+		}
+		coqM = append(coqM, fmt.Sprintf("((%s, %s), (%s, %s))", vh.Bool(m.member), vh.Bool(had), vh.Nat(len(mpk.Mpk)), vh.Bool(acc)))
+	}
+	for j := range ms {
+		contribute(j)
+	}
+	for _, j := range s.Again {
+		if j < len(ms) {
+			contribute(j)
+		}
+	}
+	o.coq = append(o.coq, fmt.Sprintf("(Build_vzc_case (%s) (0) (0) (0) (%s) ([]) (0) ([]) ([]) ([]) ([]) (None) (%s))",
+		vh.Nat(T), vh.Str("000"), vh.List(coqM)))
+
+	// what the chain recorded defines the DKG instance
+	mpks := block.NewMpks()
+	if err := balances.GetTrieNode(minersc.MinersMPKKey, mpks); err != nil {
+		o.hist["no-mpks-recorded"]++
+		return o
+	}
+	var qual []*mn
+	for _, m := range ms {
+		if _, ok := mpks.Mpks[m.id]; ok {
+			qual = append(qual, m)
+		}
+	}
+	if len(qual) < T {
+		o.hist["fewer-than-t-qualified"]++
+		return o
+	}
+	mpkMap, err := mpks.GetMpkMap()
+	if err != nil {
+		panic(err)
+	}
+	nodes := make([]*bls.DKG, len(qual))
+	cryptoh.WithRand(s.WorldSeed+1, func() {
+		for i, m := range qual {
+			d := bls.MakeDKG(T, N, m.id) // as SetDKGSFromStore: MakeDKG(mb.T, mb.N, self)
+			for _, from := range qual {
+				sij, err := from.dkg.ComputeDKGKeyShare(m.pid)
+				if err != nil {
+					panic(err)
+				}
+				if !d.ValidateShare(mpkMap[from.pid], sij) {
+					o.fail("share-of-recorded-mpk-rejected", "a share derived from a recorded polynomial does not validate")
+				}
+				if err := d.AddSecretShare(from.pid, sij.GetHexString(), false); err != nil {
+					panic(err)
+				}
+			}
+			d.AggregateSecretKeyShares()
+			if err := d.AggregatePublicKeyShares(mpkMap); err != nil {
+				panic(err)
+			}
+			nodes[i] = d
+		}
+	})
+	msg := fmt.Sprintf("%v%v%v", s.Round, s.Timeout, strconv.FormatInt(s.PrevSeed, 16))
+	sigs := make([]string, len(qual))
+	idh := make([]string, len(qual))
+	for i, m := range qual {
+		sg := nodes[i].Sign(msg)
+		sigs[i] = sg.GetHexString()
+		idh[i] = m.pid.GetHexString()
+		for h := range qual {
+			if !nodes[h].VerifySignature(sg, msg, m.pid) {
+				o.fail("share-of-qualified-miner-rejected", fmt.Sprintf("VRF share of qualified miner %d rejected by miner %d", i, h))
+			}
+		}
+	}
+	sets := subsets(len(qual), T, 80, nil)
+	all := make([]int, len(qual))
+	for i := range all {
+		all[i] = i
+	}
+	sets = append(sets, all)
+	var first int64
+	var firstSet []int
+	for k, set := range sets {
+		var sg, from []string
+		for _, i := range set {
+			sg = append(sg, sigs[i])
+			from = append(from, idh[i])
+		}
+		gs, err := nodes[k%len(nodes)].CalBlsGpSign(sg, from)
+		if err != nil {
+			o.fail("recovery-failed", err.Error())
+			continue
+		}
+		sd := seedOf(gs.GetHexString())
+		o.hist["subset-seeds"]++
+		if k == 0 {
+			first, firstSet = sd, set
+		} else if sd != first {
+			o.fail("seed-depends-on-share-subset", fmt.Sprintf("verified shares of miners %v give seed %d, of miners %v seed %d (T=%d, %d qualified)", firstSet, first, set, sd, T, len(qual)))
+		}
 	}
 	return o
 }
@@ -444,7 +647,7 @@ func gen(r *vh.Rand, t, n int, wseed uint64) scen {
 
 func key(s scen) string {
 	var b strings.Builder
-	fmt.Fprintf(&b, "%d|%d|%d|%d|%d|%d", s.T, s.N, s.WorldSeed, s.Round, s.Timeout, s.PrevSeed)
+	fmt.Fprintf(&b, "%d|%d|%d|%d|%d|%d|%v|%v", s.T, s.N, s.WorldSeed, s.Round, s.Timeout, s.PrevSeed, s.Lens, s.Again)
 	for _, v := range s.Views {
 		fmt.Fprintf(&b, "|%d:%v:%v", v.Self, v.Evs, v.More)
 	}
@@ -459,7 +662,7 @@ func main() {
 	rep.Rule = "worlds of n miners with real keys and a real DKG of threshold t ((1,1) to (7,10), thorough to (14,20)); per scenario 2-3 miners' views of " +
 		"one round (round, timeout count, previous seed incl. edge values), each fed through the real mc.AddVRFShare with a random subset and order of " +
 		"valid shares mixed with shares for another message, of another key, undecodable, zero, summed, of a later timeout count, duplicates and " +
-		"shares of a node outside the magic block; in two of three views the round is restarted (Round.Restart + IncrementTimeoutCount) after a phase with fewer than t shares or after any phase, and shares for the new timeout count follow; non-trivial = at least one share rejected, one view completed and one view (or prefix) below t; " +
+		"shares of a node outside the magic block; in two of three views the round is restarted (Round.Restart + IncrementTimeoutCount) after a phase with fewer than t shares or after any phase, and shares for the new timeout count follow; plus contribute scenarios: 3-7 miners publish public polynomials with T-1, T, T+1, T+2 coefficients (also a non-member, a second contribution) through the real minersc contributeMpk, the recorded ones form the DKG and every T-subset (up to 80) and the full set of verified shares must give one seed; non-trivial = at least one share rejected, one view completed and one view (or prefix) below t; " +
 		"distinct by all inputs"
 	cf := &vh.CasesFile{Imports: []string{"Base.Corr", "Model.DKGZ", "Model.VRFAdmit", "Model.VRFZ", "Corr.VRF"}, CaseType: "vzc_case", CheckFn: "vzc_check", Shard: 18}
 
@@ -580,6 +783,34 @@ func main() {
 		for k := 0; k < o.N(6, 40); k++ {
 			handle(gen(rnd, sh.t, sh.n, wseed))
 		}
+	}
+	// contributeMpk with polynomials of T-1, T, T+1, T+2 coefficients, then the DKG of the accepted ones
+	for k := 0; k < o.N(10, 80); k++ {
+		n := rnd.Range(3, 7)
+		t := rnd.Range(2, n-1)
+		c := scen{T: t, N: n, WorldSeed: rnd.U64() % 1000000, Round: int64(rnd.Range(2, 5000)), Timeout: rnd.Intn(3), PrevSeed: int64(rnd.U64())}
+		for j := 0; j < n; j++ {
+			l := t
+			switch rnd.Intn(8) {
+			case 0:
+				l = t + 1
+			case 1:
+				l = t - 1
+			case 2:
+				l = t + 2
+			}
+			c.Lens = append(c.Lens, l)
+		}
+		if k%3 == 0 {
+			c.Lens[n-1] = t + 1 // at least one polynomial of degree t, as the last miner
+		}
+		if rnd.Chance(1, 3) {
+			c.Lens = append(c.Lens, -1)
+		}
+		if rnd.Chance(1, 2) {
+			c.Again = append(c.Again, rnd.Intn(n))
+		}
+		handle(c)
 	}
 	finish()
 }
